@@ -276,9 +276,9 @@ fn exhaustive_total() -> u64 {
 pub fn run(eng: &Engine) {
     eng.set_rule("histories of blocks fed to the built-in MatchGeneratorDriver through the public Matcher protocol (get_next_space / commit_space / start_matching | skip_matching / reset) with scaled-down windows (slice 8..4096 bytes x 1..8 slices) and the production 128 KiB x 1; data over alphabets of 2..4 symbols, periodic data, copies of earlier history, random; validity predicate per reported sequence (literals carry the block's bytes, match_len >= 1, 1 <= offset <= window_size(), offset <= bytes retained before the match, the bytes at the stated distance equal the matched bytes, trailing Literals at most once and last, sequences tile the block exactly); non-trivial = a match whose source lies in an earlier slice, or after an eviction, or after a reset/reuse; distinct by history hash; thorough adds the exhaustive family (every binary string of length <= 16 in every composition of <= 3 blocks, slice 8, window 2 slices)");
     eng.assume("the minimum match length (5) is an implementation choice and is not asserted");
-    let n = eng.tier.pick(20_000, 600_000);
+    let n = eng.tier.pick(200_000, 3_000_000);
     eng.run_stage("scaled_windows", n, case_strategy, check_generated);
-    let n2 = eng.tier.pick(300, 6_000);
+    let n2 = eng.tier.pick(2_000, 30_000);
     eng.run_stage(
         "production_window",
         n2,
